@@ -4,6 +4,7 @@ import random
 from . import lpcommon as lc
 
 ID = 'C17'
+ANCHOR_FILES = ['generator/generator_shared.py']
 LEVEL = 'exploration'
 NEEDS_DEPS = True
 EVAL_COUNTER = 'calls'
